@@ -98,16 +98,107 @@ def fmt_site(node, env):
     return FmtSite(node, name, template, pieces, holes, env, name in ("writeln", "println", "eprintln"))
 
 
+def _display_template(repo, tyname):
+    """(pieces, holes, field-of-name map) of `impl Display for <tyname>` when its fmt is one write!(f, "..", ..) (after an optional
+    `let Self { a, b } = self;`); None otherwise"""
+    for module, sty, tr, it, rel in getattr(repo, "impls", []):
+        if not tr or tr.split("::")[-1] != "Display" or sty.split("<")[0] != tyname:
+            continue
+        fm = [x for x in it.get("items", []) if x.get("k") == "Fn" and x.get("name") == "fmt"]
+        if len(fm) != 1 or fm[0]["body"].get("k") != "Block":
+            return None
+        st = fm[0]["body"]["stmts"]
+        names = {}
+        for x in st[:-1]:
+            if x.get("k") == "Local" and x["pat"].get("k") == "PStruct" and x.get("init") is not None and x["init"].get("k") == "Path" and x["init"]["path"] == "self":
+                for fl in x["pat"]["fields"]:
+                    if fl["pat"].get("k") == "PIdent":
+                        names[fl["pat"]["name"]] = fl["name"]
+            else:
+                return None
+        last = st[-1].get("expr") if st and st[-1].get("k") == "ExprStmt" else None
+        if not isinstance(last, dict) or last.get("k") != "Macro" or last.get("name", "").split("::")[-1] != "write":
+            return None
+        inner = fmt_site(last, None)
+        if inner is None:
+            return None
+        return inner.pieces, inner.holes, names
+    return None
+
+
+def _expand_display(s, repo):
+    """a hole filled with a value of a crate type whose Display impl is a single template is that template, with the fields the value
+    was built from in its holes (`format!("{}{}", Location { path, span }, msg)` reads as `format!("{}:{}:{}:{}", path, span.line, ..)`)"""
+    import copy
+    changed = False
+    new_pieces, queue = [], []
+    hole_at = {h[0]: h for h in s.holes}
+    for idx, p in enumerate(s.pieces):
+        if p[0] != "hole" or idx not in hole_at:
+            new_pieces.append(p)
+            continue
+        _i, nm, e = hole_at[idx]
+        lit = e
+        while isinstance(lit, dict) and lit.get("k") in ("Ref", "Paren"):
+            lit = lit["expr"]
+        if isinstance(lit, dict) and lit.get("k") == "Path" and "::" not in lit["path"] and s.env is not None:
+            df = s.env.get(lit["path"])
+            lit = df.init if df is not None and df.kind == "let" and not df.proj and df.init is not None else None
+        tpl = _display_template(repo, lit["path"].split("::")[-1]) if isinstance(lit, dict) and lit.get("k") == "Struct" and (p[2] if len(p) > 2 else "") in ("", None) else None
+        if tpl is None:
+            new_pieces.append(p)
+            queue.append((nm, e))
+            continue
+        ipieces, iholes, names = tpl
+        fields = {fi["name"]: fi["expr"] for fi in lit["fields"]}
+        ih = {h[0]: h for h in iholes}
+        for j, q in enumerate(ipieces):
+            new_pieces.append(q)
+            if q[0] == "hole" and j in ih:
+                x = copy.deepcopy(ih[j][2])
+                for y in [x] + list(A.walk(x)):
+                    if y.get("k") == "Field" and y["base"].get("k") == "Path" and y["base"]["path"] == "self" and y["member"] in fields:
+                        repl = copy.deepcopy(fields[y["member"]])
+                        y.clear()
+                        y.update(repl)
+                    elif y.get("k") == "Path" and y.get("path") in names and names[y["path"]] in fields:
+                        repl = copy.deepcopy(fields[names[y["path"]]])
+                        y.clear()
+                        y.update(repl)
+                queue.append((ih[j][1] if not (ih[j][1] or "").isdigit() else None, x))
+        changed = True
+    if not changed:
+        return s
+    holes, qi = [], 0
+    for idx, p in enumerate(new_pieces):
+        if p[0] == "hole" and qi < len(queue):
+            holes.append((idx, queue[qi][0], queue[qi][1]))
+            qi += 1
+    template = "".join(p[1] if p[0] == "lit" else "{}" for p in new_pieces)
+    return FmtSite(s.node, s.macro, template, new_pieces, holes, s.env, s.newline)
+
+
 def fmt_sites(fn, envs=None):
     """all format-like macro invocations in a function, in source order, with their environments"""
     if envs is None:
         envs = A.collect_envs(fn)
+    repo = None
+    try:
+        from . import core
+        repo = core._repo
+    except Exception:
+        repo = None
     out = []
     for n in A.walk(fn.body):
         if n["k"] == "Macro":
             env = envs.get(id(n))
             s = fmt_site(n, env)
             if s is not None:
+                if repo is not None and s.holes:
+                    try:
+                        s = _expand_display(s, repo)
+                    except Exception:
+                        pass
                 out.append(s)
-    out.sort(key=lambda s: (s.node["l"], s.node["c"]))
+    out.sort(key=lambda s: A.pos(s.node))
     return out
